@@ -20,7 +20,7 @@ func newBatchCollector(batchedMuts BatchedMutations, scheduledCount *atomic.Int3
 		batchedMuts:          batchedMuts,
 		scheduledCount:       scheduledCount,
 		batchSize:            batchSize,
-		writtenValues:        make([]BatchWriteObject, batchSize),
+		writtenValues:        make([]BatchWriteObject, 0, max(batchSize, 0)),
 		writtenValuesCounter: 0,
 		committed:            false,
 	}
@@ -37,7 +37,9 @@ func (br *BatchCollector) Add(objectToPersist BatchWriteObject) (batchSizeReache
 	br.scheduledCount.Add(-1)
 
 	objectToPersist.BatchWrite(br.batchedMuts)
-	br.writtenValues[br.writtenValuesCounter] = objectToPersist
+	// appended, not stored by index: with a batch size below 1 every object is a batch of its own
+	// (writtenValuesCounter >= batchSize holds at once) instead of an index-out-of-range panic in the writer goroutine
+	br.writtenValues = append(br.writtenValues, objectToPersist)
 	br.writtenValuesCounter++
 
 	return br.writtenValuesCounter >= br.batchSize
